@@ -780,7 +780,18 @@ func (e *Env) call(x *ast.CallExpr, hint types.Type) Term {
 		b := e.tr(arg(0), nil)
 		m := w.reg.elemMem(types.Typ[types.Byte])
 		w.reg.declareUFraw("bytesval", fmt.Sprintf("(Array %s (_ BitVec 8)) %s %s", bv64, bv64, bv64), "Int")
-		return Term{fmt.Sprintf("(uf_bytesval %s (s-off %s) (s-len %s))", sel(e.memTerm(m), "(s-arr "+b.S+")"), b.S, b.S), "Int", mathIntType}
+		return Term{fmt.Sprintf("(ite (= (s-len %s) #x0000000000000000) 0 (uf_bytesval %s (s-off %s) (s-len %s)))", b.S, sel(e.memTerm(m), "(s-arr "+b.S+")"), b.S, b.S), "Int", mathIntType}
+	case "mapVal": // abstract content of a map in the current state
+		mv := e.tr(arg(0), nil)
+		mt, ok := mv.T.Underlying().(*types.Map)
+		if !ok {
+			panic(unsupported("mapVal of non-map"))
+		}
+		md, mvm := w.reg.mapMems(mt)
+		ks, vs := w.reg.sortOf(mt.Key()), w.reg.sortOf(mt.Elem())
+		ufn := "mapval_" + typeKey(mt)
+		w.reg.declareUFraw(ufn, fmt.Sprintf("(Array %s Bool) (Array %s %s)", ks, ks, vs), "Int")
+		return Term{fmt.Sprintf("(ite (= %s 0) 0 (uf_%s %s %s))", mv.S, ufn, sel(e.memTerm(md), mv.S), sel(e.memTerm(mvm), mv.S)), "Int", mathIntType}
 	case "watermark":
 		return Term{e.st().W, "Int", nil}
 	case "toInt": // mathematical value of a non-negative machine integer (ghost arithmetic only)
@@ -797,6 +808,13 @@ func (e *Env) call(x *ast.CallExpr, hint types.Type) Term {
 		}
 		k := e.tr(arg(1), nil)
 		return Term{sel(g.S, k.S), "Bool", boolT}
+	}
+	// ghost field read: name(obj)
+	if gt, ok := w.cs.GhostFields[name]; ok {
+		obj := e.tr(arg(0), nil)
+		vt := e.evalTypeStr(gt)
+		m := w.ghostMem(name, vt)
+		return mkTerm(w, sel(e.memTerm(m), w.refOf(obj)), vt)
 	}
 	// uninterpreted function
 	if uf, ok := w.cs.UFuns[name]; ok {
@@ -1001,6 +1019,10 @@ func (w *World) refOf(v Term) string {
 func (w *World) errIs(e string, sentinel string) string {
 	bit := w.reg.sentinelBit(sentinel)
 	return fmt.Sprintf("(and (not (= (i-tag %s) 0)) (= ((_ extract %d %d) (errclass (i-ref %s))) #b1))", e, bit, bit, e)
+}
+
+func (w *World) ghostMem(name string, vt types.Type) MemRef {
+	return MemRef{"G_" + name, fmt.Sprintf("(Array Int %s)", w.reg.sortOf(vt))}
 }
 
 func (w *World) errOnly(e string, sentinel string) string {
